@@ -107,10 +107,10 @@ FixtureCleanup == Clean("fixture_cleanup")
 ExecStepsRestore == Clean("exec_steps_restore")    \* exception: KF_C13_2
 ApiErrors == Clean("api_errors")                   \* exception: KF_C13_1
 \* the implementation model itself: scopes nest, the reference stack has the same shape, the known findings are
-\* the ONLY differences between model and reference (after adoption the two views agree again)
+\* the ONLY differences between model and reference (what the reference still claims to know agrees with the model)
 Shape == /\ Len(s.frames) = Len(m) /\ Len(s.frames) >= 1
          /\ \A k \in DOMAIN m : m[k].layer = s.frames[k].layer
-ViewsAgree == \A i \in 1..NP : Lk(s.frames, i) = Lk(m, i)
+ViewsAgree == \A i \in 1..NP : MLk(m, i) \in {Unknown, Lk(s.frames, i)}
 \* operation budgets per prelude depth (cfg files cannot contain sequences)
 Ops2223 == <<2, 2, 3, 2>>
 Ops2222 == <<2, 2, 2, 2>>
